@@ -50,12 +50,16 @@ def leaf_identity(a, b):
     return a is b
 
 
+class ListSub(list):
+    """a user-defined list subclass."""
+
+
 class Prop(PropBase):
     id = 'C09'
     coq_imports = ['PV.Model.Format']
     props_file = 'theories/Props/C09.v'
     n_cases = {'quick': 1000, 'thorough': 30000}
-    rule = ('cases = (context, container tree) with dict / CommentedMap / OrderedDict maps, lists, '
+    rule = ('cases = (context, container tree) with dict / CommentedMap / OrderedDict maps, list / CommentedSeq / user list subclasses, set / frozenset, '
             'tuples, sets, shared sub-objects, special tags, bytes, opaque objects; leaves are format '
             'strings or scalars. deep snapshots of input and context are taken before and after the '
             'real call. non-trivial = the value is a container or the result differs from the input')
@@ -79,7 +83,9 @@ class Prop(PropBase):
                 val = {'l': [shared, val, shared]} if rng.random() < 0.5 else \
                       {'d': [['first', shared], ['mid', val], ['again', shared]]}
             cases.append({'ctx': pairs, 'val': val,
-                          'dict_cls': rng.choice(['dict', 'dict', 'CommentedMap', 'OrderedDict'])})
+                          'dict_cls': rng.choice(['dict', 'dict', 'CommentedMap', 'OrderedDict']),
+                          'list_cls': rng.choice(['list', 'list', 'CommentedSeq', 'UserList']),
+                          'frozen': rng.random() < 0.25})
         return cases
 
     def run_impl(self, case):
@@ -91,7 +97,10 @@ class Prop(PropBase):
                'OrderedDict': collections.OrderedDict}[case.get('dict_cls', 'dict')]
         opaque = {}
         ctx = Context(pv.to_py({'d': case['ctx']}, opaque))
-        val = pv.to_py(case['val'], opaque, dict_cls=cls)
+        from ruamel.yaml.comments import CommentedSeq
+        lcls = {'list': list, 'CommentedSeq': CommentedSeq, 'UserList': ListSub}[case.get('list_cls', 'list')]
+        val = pv.to_py(case['val'], opaque, dict_cls=cls, list_cls=lcls,
+                       set_cls=frozenset if case.get('frozen') else set)
         canon = pv.Canon(opaque)
         before_ctx, before_val = canon(dict(ctx)), canon(val)
         ids_before = sorted(id(x) for x in _nodes(val))
@@ -153,7 +162,7 @@ class Prop(PropBase):
     def describe(self, case, obs):
         v = strip_share(case['val'])
         tags = ['res:' + (obs['res'][0] if obs['res'][0] == 'ok' else obs['res'][1]),
-                'cls:' + case.get('dict_cls', 'dict'),
+                'cls:' + case.get('dict_cls', 'dict'), 'lcls:' + case.get('list_cls', 'list'),
                 'size:' + str(min(G.pv_size(v) // 4 * 4, 20)),
                 'brace-free' if not G.has_brace(v) else 'has-brace']
         if 'share' in str(case['val']):
